@@ -12,7 +12,6 @@ Open Scope N_scope.
 (* definitions shared with the harness live in C02/Model.v *)
 Notation addable := C02.Model.addable.
 Notation wf_user := C02.Model.wf_user.
-Notation hosts_ok := C02.Model.hosts_ok.
 
 Lemma nick_ok_eq : C02.Model.nick_ok = nick_ok.
 Proof. reflexivity. Qed.
@@ -80,14 +79,82 @@ Proof.
 Qed.
 
 (* ---- well-formed accounts (everything but the hostmasks), and the account a record is read back as ---- *)
+(* ---- hostmask lines: isUserHostmask tolerates one trailing newline ---- *)
+Notation strip_lf := C02.Model.strip_lf.
+
+Definition hm_body (s : str) : bool :=
+  forallb (fun c => negb (ws c)) s &&
+  match s with
+  | [] => false
+  | _ :: t =>
+      match index_of BANG t with
+      | None => false
+      | Some k => match skipn (S k) t with [] => false | _ :: r' => mem AT (removelast r') end
+      end
+  end.
+Lemma hm_unfold h : is_user_hostmask h = hm_body (strip_lf h).
+Proof. reflexivity. Qed.
+
+Lemma hm_token h : is_user_hostmask h = true -> token (strip_lf h) = true.
+Proof.
+  rewrite hm_unfold. unfold hm_body, token. intro H. apply andb_true_iff in H as [H1 H2].
+  rewrite H1. destruct (strip_lf h); [discriminate|reflexivity].
+Qed.
+
+Lemma strip_lf_cases h : strip_lf h = h \/ h = strip_lf h ++ [LF].
+Proof.
+  unfold C02.Model.strip_lf. destruct (rev h) as [|c r] eqn:E; [left; reflexivity|].
+  destruct (N.eqb c LF) eqn:Ec; [|left; reflexivity]. right. apply N.eqb_eq in Ec. subst c.
+  rewrite <- (rev_involutive h), E. reflexivity.
+Qed.
+
+Lemma strip_lf_token t : token t = true -> strip_lf t = t.
+Proof.
+  intro H. unfold C02.Model.strip_lf. destruct (rev t) as [|c r] eqn:E; [reflexivity|].
+  destruct (N.eqb c LF) eqn:Ec; [|reflexivity]. exfalso. apply N.eqb_eq in Ec. subst c.
+  pose proof (token_nonws _ H) as Hn. pose proof (nonws_rev _ Hn) as Hr. rewrite E in Hr.
+  unfold nonws in Hr. cbn [forallb] in Hr. rewrite ws_LF in Hr. discriminate.
+Qed.
+
+Lemma hm_strip h : is_user_hostmask h = true -> is_user_hostmask (strip_lf h) = true.
+Proof.
+  intro H. rewrite hm_unfold. rewrite (strip_lf_token _ (hm_token _ H)). rewrite <- hm_unfold. exact H.
+Qed.
+
+Lemma hosts_lines_gen hs : forall u N db next rest,
+  u_id u = Some N -> forallb is_user_hostmask hs = true ->
+  urt (flat_map (fun h => wline IND gen.T16.WU_hostmask h) hs ++ rest) (S2 db next u)
+  = urt rest (S2 db next (set_hosts (fold_left iset_add (map strip_lf hs) (u_hosts u)) u)).
+Proof.
+  induction hs as [|h hs IH]; intros u N db next rest Hid Ht.
+  - destruct u; reflexivity.
+  - cbn [forallb] in Ht. apply andb_true_iff in Ht as [Hc Ht].
+    pose proof (token_safe _ (hm_token _ Hc)) as Hs.
+    cbn [flat_map map fold_left].
+    set (t := strip_lf h) in *.
+    assert (Hu : user_handler UHostmask t u = Ok (set_hosts (iset_add (u_hosts u) t) u))
+      by (unfold user_handler; rewrite Hid; reflexivity).
+    rewrite <- app_assoc.
+    destruct (strip_lf_cases h) as [E|E]; fold t in E.
+    + rewrite <- E.
+      rewrite (uline_same db next u _ t UHostmask _ _ tk_hostmask Hs dp_hostmask Hu).
+      rewrite (IH (set_hosts (iset_add (u_hosts u) t) u) N db next rest Hid Ht). destruct u; reflexivity.
+    + assert (W : wline IND gen.T16.WU_hostmask h = wline IND gen.T16.WU_hostmask t ++ [LF]).
+      { rewrite E at 1. unfold wline. repeat rewrite <- app_assoc. reflexivity. }
+      rewrite W. rewrite <- app_assoc.
+      rewrite (uline_same db next u _ t UHostmask _ _ tk_hostmask Hs dp_hostmask Hu).
+      cbn [app]. unfold urt at 1. rewrite rtext_blank. fold urt.
+      rewrite (IH (set_hosts (iset_add (u_hosts u) t) u) N db next rest Hid Ht). destruct u; reflexivity.
+Qed.
+
 Definition norm (u : user) : user :=
-  set_hosts (fold_left iset_add (u_hosts u) []) (set_caps (readd (u_caps u)) u).
+  set_hosts (fold_left iset_add (map strip_lf (u_hosts u)) []) (set_caps (readd (u_caps u)) u).
 
 Lemma wf_user_parts u : wf_user u = true ->
   (exists z, u_id u = Some z /\ (0 <= z)%Z) /\ safe_field (u_name u) = true /\
   is_user_hostmask (u_name u) = false /\ u_hashed u = true /\ safe_field (u_password u) = true /\
   forallb addable (u_caps u) = true /\ forallb nick_ok (u_nicks u) = true /\ nicks_stable (u_nicks u) = true /\
-  forallb safe_field (u_gpg u) = true.
+  forallb safe_field (u_gpg u) = true /\ forallb is_user_hostmask (u_hosts u) = true.
 Proof.
   unfold C02.Model.wf_user. rewrite nick_ok_eq. intro H.
   repeat match type of H with (_ && _ = true) => apply andb_true_iff in H as [H ?] end.
@@ -100,11 +167,11 @@ Lemma addable_token c : addable c = true -> token c = true.
 Proof. intro H. apply addable_parts in H. tauto. Qed.
 
 Lemma body_read_gen u N db next rest :
-  u_id u = Some N -> wf_user u = true -> hosts_ok u = true ->
+  u_id u = Some N -> wf_user u = true ->
   urt (write_user_body u ++ rest) (S0 db next (set_id N fresh_user)) = urt rest (S2 db next (norm u)).
 Proof.
-  intros Hid Hd Hhostt.
-  destruct (wf_user_parts _ Hd) as (_ & Hname & _ & Hh & Hpass & Hcaps & Hnickt & Hnicks0 & Hgpg).
+  intros Hid Hd.
+  destruct (wf_user_parts _ Hd) as (_ & Hname & _ & Hh & Hpass & Hcaps & Hnickt & Hnicks0 & Hgpg & Hhostt).
   destruct (readd_spec _ Hcaps) as [Hre _].
   assert (Hcapt : forallb token (u_caps u) = true).
   { rewrite forallb_forall in *. intros x Hx. apply addable_token, Hcaps, Hx. }
@@ -127,8 +194,8 @@ Proof.
   assert (I4 : u_id u4 = Some N) by reflexivity.
   rewrite (caps_lines _ u4 N db next _ _ I4 Hcapt Hre).
   set (u5 := set_caps (readd (u_caps u)) u4).
-  rewrite (hosts_lines _ u5 N db next _ I4 Hhostt).
-  set (u6 := set_hosts (fold_left iset_add (u_hosts u) (u_hosts u5)) u5).
+  rewrite (hosts_lines_gen _ u5 N db next _ I4 Hhostt).
+  set (u6 := set_hosts (fold_left iset_add (map strip_lf (u_hosts u)) (u_hosts u5)) u5).
   rewrite (nicks_lines _ u6 N db next _ I4 Hnickt).
   assert (Hn : fold_left (fun d nn => dict_set (fst nn) (snd nn) d) (u_nicks u) (u_nicks u6) = u_nicks u).
   { unfold nicks_stable in Hnicks0.
@@ -233,13 +300,13 @@ Proof. destruct s; [discriminate|discriminate]. Qed.
 
 Lemma records_gen W todo : forall p db next uid,
   u_id p = Some uid -> u_name p <> [] -> is_user_hostmask (u_name p) = false ->
-  forallb wf_user todo = true -> forallb hosts_ok todo = true ->
+  forallb wf_user todo = true ->
   (forall v, In v db -> loaded_from W v) -> loaded_from W p -> (forall w, In w todo -> In w W) ->
   (0 <= next)%Z ->
   let r := ufin (urt (flat_map write_user todo) (S2 db next p)) in
   (forall v, In v (us_db (fst r)) -> loaded_from W v) /\ creator_ok (us_u (fst r)) /\ (0 <= us_next (fst r))%Z.
 Proof.
-  induction todo as [|u todo IH]; intros p db next uid Hid Hne Hn Hd Hh Hdb Hp Hsub Hnext.
+  induction todo as [|u todo IH]; intros p db next uid Hid Hne Hn Hd Hdb Hp Hsub Hnext.
   - cbn [flat_map]. unfold urt. rewrite rtext_nil. unfold ufin, S2. cbn [r_mod r_st].
     destruct (finish_cases p db next uid Hid Hne Hn) as [(q & n' & Hq & Hle & E)|(q & e & n' & Hq & Hle & E)];
       rewrite E; cbn [fst us_db us_u us_next].
@@ -247,18 +314,17 @@ Proof.
       intros v Hv. destruct (db_put_In _ _ _ Hv) as [K|K]; [|apply Hdb; exact K].
       subst v. destruct Hq as [K|K]; subst q; [exact Hp|apply loaded_drop; exact Hp].
     + split; [exact Hdb|]. split; [cbn; congruence|lia].
-  - cbn [forallb] in Hd, Hh. apply andb_true_iff in Hd as [Hu Hd]. apply andb_true_iff in Hh as [Hhu Hh].
+  - cbn [forallb] in Hd. apply andb_true_iff in Hd as [Hu Hd].
     destruct (wf_user_parts _ Hu) as ((N & Eid & HN) & Hname & Hnh & _).
     cbn [flat_map]. unfold write_user, id_of. rewrite Eid. rewrite <- !app_assoc.
     destruct (finish_cases p db next uid Hid Hne Hn) as [(q & n' & Hq & Hle & E)|(q & e & n' & Hq & Hle & E)].
     + rewrite (header_ok N _ p db next _ _ HN E).
-      rewrite (body_read_gen u N _ _ _ Eid Hu Hhu).
+      rewrite (body_read_gen u N _ _ _ Eid Hu).
       apply (IH (norm u) (db_put q db) n' N).
       * rewrite norm_id; exact Eid.
       * rewrite norm_name. apply safe_nonnil; exact Hname.
       * rewrite norm_name; exact Hnh.
       * exact Hd.
-      * exact Hh.
       * intros v Hv. destruct (db_put_In _ _ _ Hv) as [K|K]; [|apply Hdb; exact K].
         subst v. destruct Hq as [K|K]; subst q; [exact Hp|apply loaded_drop; exact Hp].
       * exists u. split; [apply Hsub; left; reflexivity|left; reflexivity].
@@ -274,26 +340,25 @@ Proof. reflexivity. Qed.
 
 (* a clean creator: everything loaded comes from a written record *)
 Lemma read_gen l :
-  forallb wf_user l = true -> forallb hosts_ok l = true ->
+  forallb wf_user l = true ->
   let r := read_users_from None (write_sorted_users l) in
   (forall v, In v (us_db (fst r)) -> loaded_from l v) /\ creator_ok (us_u (fst r)) /\ (0 <= us_next (fst r))%Z.
 Proof.
-  intros Hd Hh. destruct l as [|u s].
+  intros Hd. destruct l as [|u s].
   - cbn. split; [intros v []|]. split; [exact Logic.I|lia].
-  - cbn [forallb] in Hd, Hh. apply andb_true_iff in Hd as [Hu Hd]. apply andb_true_iff in Hh as [Hhu Hh].
+  - cbn [forallb] in Hd. apply andb_true_iff in Hd as [Hu Hd].
     destruct (wf_user_parts _ Hu) as ((N & Eid & HN) & Hname & Hnh & _).
     assert (E : read_users_from None (write_sorted_users (u :: s))
                 = ufin (urt (flat_map write_user s) (S2 [] 0%Z (norm u)))).
     { change (read_users_from None) with read_users. rewrite read_users_unfold.
       unfold write_sorted_users. cbn [flat_map]. unfold write_user at 1, id_of. rewrite Eid. rewrite <- app_assoc.
-      rewrite (user_line_first N _ HN). rewrite (body_read_gen u N _ _ _ Eid Hu Hhu). reflexivity. }
+      rewrite (user_line_first N _ HN). rewrite (body_read_gen u N _ _ _ Eid Hu). reflexivity. }
     rewrite E.
     apply (records_gen (u :: s) s (norm u) [] 0%Z N).
     + rewrite norm_id; exact Eid.
     + rewrite norm_name. apply safe_nonnil; exact Hname.
     + rewrite norm_name; exact Hnh.
     + exact Hd.
-    + exact Hh.
     + intros v [].
     + exists u. split; [left; reflexivity|left; reflexivity].
     + intros w Hw. right. exact Hw.
